@@ -4,7 +4,9 @@
 package c06
 
 import (
+	"errors"
 	"fmt"
+	"os"
 	"sort"
 	"testing"
 
@@ -106,6 +108,11 @@ func TestCheck(t *testing.T) {
 					seq, err := conc.Sequential(p)
 					if err != nil {
 						c.Inconclusive("sequential: " + err.Error())
+						if errors.Is(err, conc.ErrHang) {
+							// C07 decides calls that do not return; every further program would pay the guard again
+							c.Finish()
+							os.Exit(2)
+						}
 						continue
 					}
 					progs++
@@ -166,6 +173,10 @@ func TestCheck(t *testing.T) {
 			seq, err := conc.Sequential(p)
 			if err != nil {
 				c.Inconclusive("sequential: " + err.Error())
+				if errors.Is(err, conc.ErrHang) {
+					c.Finish()
+					os.Exit(2)
+				}
 				return nil
 			}
 			choices := rapid.SliceOfN(rapid.IntRange(0, 5), 0, 60).Draw(t, "schedule")
